@@ -43,6 +43,8 @@ func init() {
 			"\tif length := b.WriteLen(); n > length {\n\t\tn = length\n\t}\n\tb.wi -= n", "\tif length := b.ReadLen(); n > length {\n\t\tn = length\n\t}\n\tb.wi -= n", "C09-R5"},
 		mutant{"validator accepts a slot ending past the save area", "byte_buffer.go",
 			"slot.Index <= b.si-slot.Length", "slot.Index <= b.si", "C09-R5"},
+		mutant{"PrepareRead commits although it refuses", "byte_buffer.go",
+			"\t\tif b.WriteLen() >= need {\n\t\t\tb.Commit(need)\n\t\t} else {\n\t\t\terr = sonicerrors.ErrNeedMore\n\t\t}", "\t\tif b.WriteLen() < need {\n\t\t\terr = sonicerrors.ErrNeedMore\n\t\t}\n\t\tb.Commit(need)", "C09-R4"},
 		mutant{"PrepareRead bounded by the whole buffer length", "byte_buffer.go",
 			"\t\tif b.WriteLen() >= need {", "\t\tif b.Len() >= n {", "C09-R4"},
 		mutant{"PrepareRead commits without checking the write area", "byte_buffer.go",
@@ -770,7 +772,7 @@ func runC09(c *Ctx) {
 	}
 
 	// ------------------------------------------------------------------------------------------------ R4
-	c.rule("C09-R4", "PrepareRead(n) succeeds only when n bytes are readable afterwards: nil is returned either under n <= ReadLen() or after Commit(n-ReadLen()) under n-ReadLen() <= WriteLen()", 1)
+	c.rule("C09-R4", "PrepareRead(n) succeeds only when n bytes are readable afterwards: nil is returned either under n <= ReadLen() or after Commit(n-ReadLen()) under n-ReadLen() <= WriteLen(); a refusal commits nothing", 2)
 	{
 		fn := p.Method("sonic", bbT, "PrepareRead")
 		commit := p.Method("sonic", bbT, "Commit")
@@ -821,6 +823,20 @@ func runC09(c *Ctx) {
 				bad = fmt.Sprintf("Commit(n-ReadLen()) is not guarded by n-ReadLen() <= WriteLen() (guards on the path: %v)", keysOf(lits))
 			}
 		}
+		// ... and a refusal leaves the regions alone: no Commit on a path that reports an error
+		leaks := ""
+		for _, path := range paths {
+			ret := path.Ret()
+			if ret == nil || len(ret.Results) != 1 || path.Panics || path.nilness(ret.Results[0]) == "nil" {
+				continue
+			}
+			for _, in := range path.Instrs() {
+				if isCallToFn(in, commit) {
+					leaks = path.String()
+				}
+			}
+		}
+		c.check(leaks == "", fn, "refusal commits nothing", fn.Pos(), "ErrNeedMore is returned without committing", "PrepareRead commits bytes on a path that reports ErrNeedMore ("+leaks+"): a refused request makes the partial write area readable - uncommitted bytes are handed to readers and can no longer be dropped with ShrinkTo")
 		c.check(bad == "" && n > 0, fn, "grant", fn.Pos(), "nil only when n bytes are readable afterwards", "PrepareRead can report success with fewer than n readable bytes ("+bad+"): Commit clamps to the write area, so a decoder that was promised n bytes slices past the data it has (stale bytes decoded as a frame, or a panic)")
 	}
 }
